@@ -15,7 +15,14 @@ META = {
             "to the code by executing every rule's pattern and the REAL optimizer's rewrite on real Contexts "
             "(differential against the model + model-free oracle pattern = replacement), and the whole property by "
             "running the tests/ corpus and generated programs in-process across optimizer {0,1,2,3} x registers x "
-            "constfold x globalcache x type mode, one process per symbol allocation size, comparing stdout + error text.",
+            "constfold x globalcache x type mode, one process per symbol allocation size, comparing stdout + error text. "
+            "The assignment boundary (checkType / checkTypeRegister) is covered systematically: probe programs assign untyped "
+            "literals of every numeric flavour, other constants and typed values to a parameter, `:=` local, `var` local, named "
+            "result and loop variable of each of the 12 numeric kinds inside register-eligible functions, in every type mode "
+            "(a divergent probe program is shrunk before it is reported); and at the primitive level Store/StoreRegister, "
+            "CreateAndStore/CreateAndStoreRegister and Load/LoadRegister are run on the same destination and operand values "
+            "(plain and constant-wrapped, every kind, every mode) and must agree — inside the model's value domain both sides "
+            "of the store pair are also lines for the model's `store`.",
     "note": "partial: slots/registers, the global cache and compile-time const folding are covered by the whole-program "
             "oracle only (no model: C02_slots_refine / C02_globalcache_refine of DESIGN.md are not stated). C02_patch_preserves is proved "
             "for the model's `run` (Branch/BranchTrue/BranchFalse/Stop over `step1`), `patch` and `guardOK`; the matcher loop of "
@@ -28,8 +35,10 @@ META = {
             "(e.g. a StackMarker under `Store _`, Push nil before StoreIndex, a non-string LoadThis name). "
             "Known findings on the current tree: the global cache and registers change behaviour for late/shadowing "
             "local declarations and out-of-scope uses (classes gcache:late-shadow, regs:shadow-const, regs:out-of-scope-use). "
+            "Repaired in /repo (8fe48709): a parallel assignment `x, y = a, b` to register locals did not compile with registers on (was class regs:parallel-assign). "
             "Repaired in /repo (ea96483d): the fused Increment now reports an unknown variable and stores through Store's type "
-            "boundary exactly like the Load/Push/Add/Store sequence it replaces (was class opt:relaxed-nonconst-step), and LoadThis "
+            "boundary exactly like the Load/Push/Add/Store sequence it replaces (was class opt:relaxed-nonconst-step; the model's "
+            "stepIncrement and IncrLaw carry that checkType, so a strict-mode Increment of a constant symbol is ErrInvalidVarType), and LoadThis "
             "unwraps constants.",
     "technique": "Lean 4 proof over a regenerated rule table + model/implementation correspondence + configuration cross-product oracle",
     "design_ref": "DESIGN.md §6 C02",
@@ -178,7 +187,10 @@ def run(ctx):
                 "program level: distinct programs whose baseline output exceeds 40 bytes; generated from increment forms on "
                 "10 integer types, constant comparisons, `_ =`, nested blocks, constant expressions, globals read/written at "
                 "several call depths, closures, late/shadowing declarations, methods, indexed stores, try/catch, defer, "
-                "run-time errors; plus the tests/ corpus through the `ego test` pipeline",
+                "run-time errors, constants and typed values of another numeric type assigned to numeric locals and parameters; "
+                "store-boundary probe programs (numeric kind x declaration form x assigned value); plus the tests/ corpus "
+                "through the `ego test` pipeline. primitive level: distinct (mode, destination value, operand) triples run "
+                "through the name-based and the register opcode",
         "samples": ((st.get("samples") or [])[:3] + (samples or [])[:3]),
         "counters": counters,
     })
